@@ -144,6 +144,7 @@ type translator struct {
 
 	rejected []rejection // definitions that could not be produced (the rest is written)
 	m64      bool        // int64 mode (int64.go): every operation goes through the wrapping vocabulary of I64.v
+	sv       bool        // struct-value mode (spatial.go): a struct is one value (a tuple), methods and functions of dependencies are translated on demand
 	sinkFile string      // name of the output file this translator's definitions go to (for the rejection lines)
 
 	// float file (float.go)
@@ -212,9 +213,14 @@ func (t *translator) load(dir string) *pkgInfo {
 		return p
 	}
 	abs := filepath.Join(repoRoot, filepath.FromSlash(dir))
+	shown := dir // the prefix of the file names in the headers
+	if strings.HasPrefix(dir, "\x00") {
+		// a package of a dependency: its source in the module cache, at the version go.mod requires
+		abs, shown = externalDir(strings.TrimPrefix(dir, "\x00"))
+	}
 	ents, err := os.ReadDir(abs)
 	if err != nil {
-		failf("package %s: cannot read directory: %v", dir, err)
+		failf("package %s: cannot read directory: %v", strings.TrimPrefix(dir, "\x00"), err)
 	}
 	p := &pkgInfo{dir: dir, funcs: map[string][]*ast.FuncDecl{}, fileOf: map[*ast.FuncDecl]int{}, consts: map[string]*constDecl{}, types: map[string]*ast.TypeSpec{}, vars: map[string]*constDecl{}}
 	var fns []string
@@ -237,7 +243,8 @@ func (t *translator) load(dir string) *pkgInfo {
 		}
 		idx := len(p.files)
 		p.files = append(p.files, f)
-		p.names = append(p.names, dir+"/"+n)
+		p.names = append(p.names, shown+"/"+n)
+		absOf[shown+"/"+n] = filepath.Join(abs, n)
 		for _, d := range f.Decls {
 			switch x := d.(type) {
 			case *ast.FuncDecl:
@@ -413,7 +420,12 @@ func (a typ) fieldType(i int) typ {
 	return a.ftypes[i]
 }
 
-func same(a, b typ) bool { return a.k == b.k && a.name == b.name }
+func same(a, b typ) bool {
+	if a.k == kStruct && b.k == kStruct && a.ftypes != nil && b.ftypes != nil && a.name != b.name {
+		return false
+	}
+	return a.k == b.k && a.name == b.name
+}
 
 type sig struct {
 	coq     string
@@ -506,6 +518,12 @@ func (c *fctx) declare(sc *scope, id *ast.Ident, t typ) *varInfo {
 }
 
 func (c *fctx) goType(e ast.Expr) typ {
+	if c.t.sv {
+		if t, ok := c.svType(e, 0); ok {
+			return t
+		}
+		c.fail(e, "type %s (struct-value mode: float64, int64, bool, structs and fixed arrays of them)", exprString(e))
+	}
 	switch x := e.(type) {
 	case *ast.Ident:
 		switch x.Name {
@@ -961,7 +979,7 @@ func (c *fctx) callTranslated(sc *scope, x *ast.CallExpr) (string, *sig) {
 		if !ok {
 			c.fail(x, "method call %s", exprString(x.Fun))
 		}
-		if strings.HasPrefix(dir, "\x00") {
+		if strings.HasPrefix(dir, "\x00") && !c.t.sv {
 			c.fail(x, "call of %s (package %s is outside the module)", exprString(x.Fun), strings.TrimPrefix(dir, "\x00"))
 		}
 		if c.fmode {
@@ -1086,10 +1104,10 @@ func (c *fctx) block(ss []ast.Stmt, sc *scope, k func() string) string {
 			for i := range vs.Names {
 				if len(vs.Values) == 0 {
 					t := c.goType(vs.Type)
-					if t.k == kStruct {
+					if t.k == kStruct && !c.t.sv {
 						c.fail(s, "local variable of struct type")
 					}
-					codes, types = append(codes, t.zero()), append(types, t)
+					codes, types = append(codes, zeroOf(t)), append(types, t)
 				} else if vs.Type != nil {
 					code, t := c.exprAs(sc, vs.Values[i], c.goType(vs.Type))
 					codes, types = append(codes, code), append(types, t)
@@ -1260,7 +1278,7 @@ func (c *fctx) ret(x *ast.ReturnStmt, sc *scope) string {
 		c.fail(x, "return of %d values for %d results", len(x.Results), len(c.results))
 	}
 	for i, r := range x.Results {
-		if c.results[i].k == kStruct {
+		if c.results[i].k == kStruct && !c.t.sv {
 			if c.fmode {
 				rs = append(rs, c.fstructValue(sc, r, c.results[i]))
 				continue
@@ -1441,7 +1459,7 @@ func (c *fctx) assign(x *ast.AssignStmt, sc *scope) string {
 			c.fail(x, "assignment of a call with %d results to %d variables", len(s.results), len(ids))
 		}
 		for _, r := range s.results {
-			if r.k == kStruct {
+			if r.k == kStruct && !c.t.sv {
 				c.fail(x, "assignment of a struct result")
 			}
 		}
@@ -1470,7 +1488,7 @@ func (c *fctx) assign(x *ast.AssignStmt, sc *scope) string {
 				c.fail(x, "assignment to the unknown variable %s", id.Name)
 			}
 		}
-		if v.t.k == kOpaque || v.t.k == kStruct {
+		if v.t.k == kOpaque || (v.t.k == kStruct && !(c.t.sv && v.fields == nil)) {
 			c.fail(x, "assignment to %s (type %s)", id.Name, v.t)
 		}
 		if !same(v.t, types[i]) {
@@ -2224,6 +2242,45 @@ func (t *translator) quadkeyBounds() {
 	}
 }
 
+// absolute path of every source file something may be taken from (the files of dependencies live outside the tree)
+var absOf = map[string]string{}
+
+func sourcePath(root, name string) string {
+	if a, ok := absOf[name]; ok {
+		return a
+	}
+	return filepath.Join(root, filepath.FromSlash(name))
+}
+
+// the directory of the package `path` of a dependency in the module cache, and its name <module>@<version>/<rest>
+func externalDir(path string) (string, string) {
+	b, err := os.ReadFile(filepath.Join(repoRoot, "go.mod"))
+	if err != nil {
+		failf("cannot read go.mod: %v", err)
+	}
+	mod, ver := "", ""
+	for _, l := range strings.Split(string(b), "\n") {
+		f := strings.Fields(strings.TrimPrefix(strings.TrimSpace(l), "require "))
+		if len(f) >= 2 && (path == f[0] || strings.HasPrefix(path, f[0]+"/")) && len(f[0]) > len(mod) && strings.HasPrefix(f[1], "v") {
+			mod, ver = f[0], f[1]
+		}
+	}
+	if mod == "" {
+		failf("package %s: no module of go.mod provides it", path)
+	}
+	cache := os.Getenv("GOMODCACHE")
+	if cache == "" {
+		gp := os.Getenv("GOPATH")
+		if gp == "" {
+			home, _ := os.UserHomeDir()
+			gp = filepath.Join(home, "go")
+		}
+		cache = filepath.Join(strings.Split(gp, string(os.PathListSeparator))[0], "pkg", "mod")
+	}
+	rest := strings.TrimPrefix(path, mod)
+	return filepath.Join(cache, filepath.FromSlash(mod+"@"+ver+rest)), mod + "@" + ver + rest
+}
+
 func modulePath(root string) string {
 	b, err := os.ReadFile(filepath.Join(root, "go.mod"))
 	if err != nil {
@@ -2253,7 +2310,7 @@ func (t *translator) sub(m64 bool) *translator {
 	return r
 }
 
-func run(repo, out, outF, out64 string) {
+func run(repo, out, outF, out64, outFS string) {
 	abs, err := filepath.Abs(repo)
 	if err != nil {
 		failf("%v", err)
@@ -2288,6 +2345,14 @@ func run(repo, out, outF, out64 string) {
 		t.used[f] = true
 	}
 	t.rejected = append(t.rejected, tz.rejected...)
+	// the float64 helpers of common/spatial (struct values)
+	var textFS string
+	if outFS != "" {
+		ts := t.sub(false)
+		ts.sv = true
+		textFS = ts.runSpatial(abs)
+		t.rejected = append(t.rejected, ts.rejected...)
+	}
 	// the same kernels in int64 mode
 	var text64 string
 	if out64 != "" {
@@ -2307,7 +2372,7 @@ func run(repo, out, outF, out64 string) {
 	b.WriteString("   int64(math.Pow(B, float64(e))) = B ^ e; math.Abs(float64(e)) = Z.abs e; a floating-point constant is the exact decimal (m, e) = m * 10^e.\n")
 	b.WriteString("   Source files (relative to the repository root) and their SHA-256:\n")
 	for _, f := range files {
-		data, err := os.ReadFile(filepath.Join(abs, filepath.FromSlash(f)))
+		data, err := os.ReadFile(sourcePath(abs, f))
 		if err != nil {
 			failf("%v", err)
 		}
@@ -2356,6 +2421,11 @@ func run(repo, out, outF, out64 string) {
 			failf("cannot write %s: %v", out64, err)
 		}
 	}
+	if outFS != "" {
+		if err := os.WriteFile(outFS, []byte(textFS), 0o644); err != nil {
+			failf("cannot write %s: %v", outFS, err)
+		}
+	}
 	if len(t.rejected) > 0 {
 		// machine-readable: one line per missing unit, then the count; both files have been written without these definitions
 		for _, r := range t.rejected {
@@ -2371,9 +2441,10 @@ func main() {
 	out := flag.String("out", "", "Coq file to write (integer kernels and constants)")
 	outF := flag.String("outf", "", "Coq file to write (float64 kernels); optional")
 	out64 := flag.String("out64", "", "Coq file to write (the integer kernels with Go's int64 semantics); optional")
+	outFS := flag.String("outfs", "", "Coq file to write (the float64 helpers of common/spatial, struct values as tuples); optional")
 	flag.Parse()
 	if *repo == "" || *out == "" || flag.NArg() != 0 {
-		fmt.Fprintln(os.Stderr, "usage: vtrans -repo <tree> -out <Generated.v> [-outf <GeneratedF.v>] [-out64 <Generated64.v>]")
+		fmt.Fprintln(os.Stderr, "usage: vtrans -repo <tree> -out <Generated.v> [-outf <GeneratedF.v>] [-out64 <Generated64.v>] [-outfs <GeneratedFS.v>]")
 		os.Exit(2)
 	}
 	defer func() {
@@ -2385,5 +2456,5 @@ func main() {
 			panic(r)
 		}
 	}()
-	run(*repo, *out, *outF, *out64)
+	run(*repo, *out, *outF, *out64, *outFS)
 }
